@@ -144,6 +144,40 @@ theorem eq_perm_props (veq : Val → Val → Bool) (hr : ∀ v, veq v v = true) 
   rw [Forall2.map_left]
   exact Forall2.refl_of _ (fun c hc => eq_refl veq hr c (hw'.2 c hc))
 
+/-! ### Clause pass (round 10): permutations at every depth -/
+
+/-- Congruence under permutation: if the subcomponents of `b` are a permutation of a list whose
+    members are `==` to the subcomponents of `a` one by one (each of them possibly with ITS
+    subcomponents permuted, and so on downwards), then `a == b`.  Applied level by level this is
+    "the order of subcomponents is ignored at every depth". -/
+theorem eq_congr_perm (veq : Val → Val → Bool) (hv : VEquiv veq) (n : Str) (p : List Entry)
+    (subs l subs' : List Comp) (hw : Comp.WF (.mk n p subs)) (hw2 : Comp.WF (.mk n p subs'))
+    (hl : l.Perm subs') (hf : Forall2 (fun c d => compEq veq c d = true) subs l) :
+    compEq veq (.mk n p subs) (.mk n p subs') = true :=
+  (eq_multiset veq hv _ _ hw hw2).2 ⟨rfl, propsEq_refl veq hv.refl p ((WF_iff _).1 hw).1, l, hl, hf⟩
+
+/-- Two levels at once: permuting the children and, inside one child, the grandchildren. -/
+theorem eq_perm_depth2 (veq : Val → Val → Bool) (hv : VEquiv veq) (n m : Str) (p q : List Entry)
+    (xs xs' rest rest' : List Comp) (hw : Comp.WF (.mk n p (.mk m q xs :: rest)))
+    (hx : xs'.Perm xs) (hr : rest'.Perm (.mk m q xs' :: rest)) :
+    compEq veq (.mk n p (.mk m q xs :: rest)) (.mk n p rest') = true := by
+  have hw' := (WF_iff _).1 hw
+  have hin : Comp.WF (.mk m q xs) := hw'.2 _ (by simp [Comp.subs])
+  have hin' := (WF_iff _).1 hin
+  have hin2 : Comp.WF (.mk m q xs') :=
+    (WF_iff _).2 ⟨hin'.1, fun c hc => hin'.2 c (hx.mem_iff.1 hc)⟩
+  have hw2 : Comp.WF (.mk n p rest') := by
+    refine (WF_iff _).2 ⟨hw'.1, fun c hc => ?_⟩
+    have hc' : c ∈ Comp.mk m q xs' :: rest := hr.mem_iff.1 hc
+    rcases List.mem_cons.mp hc' with rfl | hc'
+    · exact hin2
+    · exact hw'.2 c (by simp [Comp.subs, hc'])
+  refine eq_congr_perm veq hv n p _ (.mk m q xs' :: rest) rest' hw hw2 hr.symm ?_
+  refine Forall2.cons (eq_perm_subs veq hv m q xs xs' hin hx) ?_
+  exact Forall2.refl_of _ (fun c hc => eq_refl veq hv.refl c (hw'.2 c (by simp [Comp.subs, hc])))
+
+example (a b : Comp) : [b, a].Perm [a, b] := List.Perm.swap a b []
+
 /-- components of different kind are never equal -/
 theorem eq_distinguishes_kind (veq : Val → Val → Bool) (a b : Comp) (h : a.name ≠ b.name) :
     compEq veq a b = false := by
